@@ -20,7 +20,7 @@ func init() {
 			"A-TEMPLATE: (*template.Template).Execute writes only to its writer",
 			"A-PARSE-FS: the specification parser has no file-system effect; the funcs.Generate field holds golang.Generate (its proved contract is what the callback contract of Run states)",
 			"isIDValid is taken as the definition of 'usable Go package identifier' (its regular expression and reserved-word list are not re-derived)",
-			"repository functions not yet under proof that are called here with an effect-free contract: Spec.DFA (opaque)",
+			"Spec.DFA is under contract (C03); regexToDFA is opaque (effect-free)",
 		},
 	})
 	register(&PropSpec{
